@@ -65,6 +65,16 @@ def validation_goal(name, parsed, table=None):
     L.append('Definition %s_ann : list (list item) :=\n  %s.' % (name, gallina_ann(parsed['states'], tidx)))
     L.append('Definition %s_ft : first_table := %s.' % (name, gallina_ft(ref, tidx)))
     L.append('Goal validate %s_T %s_ann %s_ft = true. Proof. vm_compute. reflexivity. Qed.' % (name, name, name))
+    nterm, nn = len(terms), len(nts)
+    ns = len(table[1]) // (nterm + 1)
+    arows = [table[1][i * (nterm + 1):(i + 1) * (nterm + 1)] for i in range(ns)]
+    grows = [[(g[1] if g[0] == 'G' else None) for g in table[2][i * nn:(i + 1) * nn]] for i in range(ns)]
+    cert = termination_certificate(nterm, nn, arows, grows, [(nidx[lhs], len(rhs)) for lhs, rhs in rules])
+    if cert is not None:
+        L.append('Goal term_check %s_T %s_ann %d [%s] = true. Proof. vm_compute. reflexivity. Qed.'
+                 % (name, name, cert[0], '; '.join(map(str, cert[1]))))
+    else:
+        L.append('(* no termination certificate found *)')
     return '\n'.join(L)
 
 
@@ -95,3 +105,62 @@ def annotate_table(rules, start_nt_name, terms, nts, start_state, actions, gotos
         items = sorted(ref['states'][c], key=str) if c is not None else []
         states.append([(r, la, d) for (r, d, la) in items])
     return states, ref
+
+
+# ---------------------------------------------------------------- termination certificate (LR/Term.v)
+
+def termination_certificate(nterm, nn, actions, gotos, rules_shape):
+    """actions: rows of ('S',s)|('R',r)|('Acc',)|('E',); gotos: rows of state or None;
+    rules_shape: [(lhs index, rhs length)].  Returns (K, phi) satisfying LR/Term.v:term_check, or None."""
+    ns = len(actions)
+    preds1 = [set() for _ in range(ns)]
+    for p in range(ns):
+        for c in range(nterm + 1):
+            a = actions[p][c]
+            if a[0] == 'S' and a[1] < ns:
+                preds1[a[1]].add(p)
+        for n in range(nn):
+            g = gotos[p][n]
+            if g is not None and g < ns:
+                preds1[g].add(p)
+
+    def predsn(n, s):
+        cur = {s}
+        for _ in range(n):
+            nxt = set()
+            for q in cur:
+                nxt |= preds1[q]
+            cur = nxt
+        return cur
+
+    cons = set()
+    for s in range(ns):
+        for c in range(nterm + 1):
+            a = actions[s][c]
+            if a[0] != 'R' or a[1] >= len(rules_shape):
+                continue
+            lhs, n = rules_shape[a[1]]
+            for p in predsn(n, s):
+                g = gotos[p][lhs] if lhs < nn else None
+                if g is not None:
+                    cons.add((s, g, n))
+    K = ns + 1
+    for _ in range(6):
+        dist = [0] * ns
+        ok = True
+        for it in range(ns + 1):
+            changed = False
+            for (s, s2, n) in cons:
+                w = K * n - K - 1
+                if dist[s] + w < dist[s2]:
+                    dist[s2] = dist[s] + w
+                    changed = True
+            if not changed:
+                break
+        else:
+            ok = False
+        if ok and not changed:
+            lo = min(dist) if dist else 0
+            return K, [d - lo for d in dist]
+        K *= 4
+    return None
